@@ -227,8 +227,22 @@ class Chunks:
     def write(self, txt):
         self.bufs[self.i].append(txt)
 
-    def next(self, name):
-        self.i = (self.i + 1) % len(self.bufs)
+    def next(self, name, group=None):
+        """round-robin inside the chunk range of `group` (theorems of different properties never share a module)"""
+        n = len(self.bufs)
+        if group == "C02":
+            lo, hi = n - max(2, n // 4), n
+        elif group == "C01":
+            lo, hi = 0, n - max(2, n // 4)
+        else:
+            lo, hi = 0, n
+        cur = getattr(self, "_cur", {})
+        i = cur.get(group, lo - 1) + 1
+        if i >= hi or i < lo:
+            i = lo
+        cur[group] = i
+        self._cur = cur
+        self.i = i
         self.where[name] = self.i
 
 
@@ -323,7 +337,7 @@ def emit_set(ts, bad, prefix, entry_fn, outdir_lean, gendir, nchunk, what):
                 if t.lean is None:
                     meta["functions"].append(rec)
                     continue       # no model: no theorem can be stated -- the check reports the broken obligation
-                ft.next(t.key)
+                ft.next(t.key, sp["prop"] if prefix == "Integer" else None)
                 hyps = ["(h_%s : In%s %s)" % (n, ct, n) for n, c, ct in t.uparams if ct != "Integer"] + \
                        ["(hp%d : %s)" % (i, p) for i, p in enumerate(pre_l)]
                 tac = TACTIC.get(sp["fam"], "gmp_lin")
